@@ -526,7 +526,7 @@ static void do_ab(const lcase_t *lc)
     oc_t T[NMAX * NMAX];
     double f = FREQ, ratio = 0.0;
     vnadata_t *vdp;
-    int res = -1, qual, fin = 0;
+    int res = -1, qual, fin = 0, huge = 0;
     long double cond;
 
     ci = ident_cal(n);
@@ -556,8 +556,12 @@ static void do_ab(const lcase_t *lc)
 	fin = oc_all_finite(S, n * n);
 	/* the identity calibration is itself solved to a few ulps: allow a
 	 * factor 10 on the bound for that (documented in the notes) */
-	if (fin)
+	if (fin) {
+	    long double an = oc_fnorm(G0, n, n), bn = oc_fnorm(Bm, n, n);
+
 	    res = resid_ok(0, G0, Su, Bm, n, 10.0, &ratio);
+	    huge = any_huge(Su, n * n, an > 0.0L ? bn / an : 1.0L);
+	}
     }
     if (dbg)
 	fprintf(stderr, "ab n=%d rc=%d err=%d fin=%d res=%d ratio=%.3g "
@@ -566,8 +570,8 @@ static void do_ab(const lcase_t *lc)
     put_ints("p", apat, n * n);
     vt_put(",");
     put_ints("rowmap", lc->rowmap, lc->nrowmap);
-    vt_put(",\"setup\":%d,\"qual\":%d,\"fin\":%d,\"res\":%d", ci >= 0, qual,
-	    fin, res);
+    vt_put(",\"setup\":%d,\"qual\":%d,\"fin\":%d,\"huge\":%d,\"res\":%d",
+	    ci >= 0, qual, fin, huge, res);
     put_result(rc == 0, err);
     vt_put("}");
     vt_end_line();
@@ -719,13 +723,22 @@ emit:
  * short/open/match on every port, through 1-k (over-determined for p >= 2),
  * or an exactly determined subset.
  */
-static int add_standards(vnacal_new_t *vnp, const m8_t *e, int exact)
+static int add_throughs(vnacal_new_t *vnp, const m8_t *e);
+
+static int add_standards(vnacal_new_t *vnp, const m8_t *e, int exact,
+	int reversed)
 {
     int p = e->p;
     static const int std[3] = { VNACAL_SHORT, VNACAL_OPEN, VNACAL_MATCH };
     static const double g[3] = { -1.0, 1.0, 0.0 };
 
-    for (int port = 1; port <= p; ++port) {
+    /* reversed: throughs first, then the reflects from the last port down
+     * (a row permutation of every system the solve builds) */
+    if (reversed && add_throughs(vnp, e) == -1)
+	return -1;
+    for (int pi = 1; pi <= p; ++pi) {
+	int port = reversed ? p + 1 - pi : pi;
+
 	m8_t one;
 
 	one.p = 1;
@@ -739,8 +752,7 @@ static int add_standards(vnacal_new_t *vnp, const m8_t *e, int exact)
 
 	    /*
 	     * exactly determined sets (4p-1 equations): p = 1: short, open,
-	     * match; p = 2: through, match on both ports, short on port 1;
-	     * p = 3: two throughs, match on every port
+	     * match; p = 2: through, match on both ports, short on port 1
 	     */
 	    if (exact && p >= 2 && s != 2 && !(p == 2 && port == 1 && s == 0))
 		continue;
@@ -750,6 +762,15 @@ static int add_standards(vnacal_new_t *vnp, const m8_t *e, int exact)
 		return -1;
 	}
     }
+    if (!reversed && add_throughs(vnp, e) == -1)
+	return -1;
+    return 0;
+}
+
+static int add_throughs(vnacal_new_t *vnp, const m8_t *e)
+{
+    int p = e->p;
+
     for (int port = 2; port <= p; ++port) {
 	m8_t two;
 	double complex S[4] = { 0.0, 1.0, 1.0, 0.0 }, M[4];
@@ -782,7 +803,7 @@ static int add_standards(vnacal_new_t *vnp, const m8_t *e, int exact)
 static void do_applym(const lcase_t *lc)
 {
     int p = lc->n, type = atoi(lc->fn) % 2;
-    int exact = lc->m == 1 && p <= 3;
+    int exact = lc->m == 1 && p <= 2;
     vnacal_new_t *vnp;
     m8_t e;
     double f = FREQ, worst = 0.0;
@@ -798,7 +819,7 @@ static void do_applym(const lcase_t *lc)
     vt_cb_reset();
     vnp = LIB(vnacal_new_alloc(vcp, type ? VNACAL_U8 : VNACAL_T8, p, p, 1));
     if (vnp != NULL && LIB(vnacal_new_set_frequency_vector(vnp, &f)) == 0 &&
-	    add_standards(vnp, &e, exact) == 0 &&
+	    add_standards(vnp, &e, exact, lc->nperm > 0) == 0 &&
 	    LIB(vnacal_new_solve(vnp)) == 0) {
 	snprintf(name, sizeof(name), "am%d", serial++);
 	if (LIB(vnacal_add_calibration(vcp, name, vnp)) != -1 &&
@@ -845,8 +866,8 @@ static void do_applym(const lcase_t *lc)
 		type, setup, rc, worst);
     vt_put("{\"e\":\"ApplyM\",\"type\":\"%s\",\"p\":%d,", type ? "U8" : "T8", p);
     put_ints("sc", lc->scale, lc->nscale);
-    vt_put(",\"det\":\"%s\",\"setup\":%d,\"fin\":%d,\"res\":%d",
-	    exact || p == 1 ? "exact" : "over", setup, fin, res);
+    vt_put(",\"det\":\"%s\",\"rev\":%d,\"setup\":%d,\"fin\":%d,\"res\":%d",
+	    exact || p == 1 ? "exact" : "over", lc->nperm > 0, setup, fin, res);
     put_result(rc == 0, err);
     vt_put("}");
     vt_end_line();
